@@ -70,3 +70,44 @@ Proof. vm_compute. repeat split. Qed.
 Example C06_src_runs : g_cc_from_word_lt 3 (2 ^ 63) = 2 ^ 64 - 1 /\ g_cc_from_word_lt (2 ^ 63) 3 = 0 /\
   g_cc_select_word (2 ^ 64 - 1) 5 9 = 9.
 Proof. vm_compute. repeat split. Qed.
+
+(** ---- the three-way comparison Uint::cmp (i8 arithmetic on the final borrow and the accumulated difference) *)
+From CB Require Import Src.GenShift Src.GenCmp Src.GenCmpP.
+Theorem C06_src_uint_cmp_model : forall n a b, length a = n -> length b = n -> usz n -> wf a -> wf b ->
+  g_uint_cmp n a b = uint_cmp a b.
+Proof. exact g_uint_cmp_eq. Qed.
+Print Assumptions C06_src_uint_cmp_model.
+Theorem C06_src_uint_cmp : forall n a b, length a = n -> length b = n -> usz n -> wf a -> wf b ->
+  g_uint_cmp n a b = ordz (eval a) (eval b).
+Proof. exact g_uint_cmp_spec. Qed.
+Print Assumptions C06_src_uint_cmp.
+
+Example C06_src_cmp_runs : g_uint_cmp 3 [5; 1; 7] [4; 2; 7] = -1 /\ g_uint_cmp 3 [5; 2; 7] [4; 2; 7] = 1 /\
+  g_uint_cmp 3 [5; 2; 7] [5; 2; 7] = 0 /\ g_uint_cmp 2 [0; 2 ^ 63] [2 ^ 64 - 1; 2 ^ 63 - 1] = 1.
+Proof. vm_compute. repeat split. Qed.
+
+(** ---- the signed order of src/int/cmp.rs: Int::eq / lt / gt / cmp through invert_msb (xor with Int::SIGN_MASK = Int::MIN, which
+    the source computes with its own shr / bitxor); n >= 1 limbs, 64 n < 2^32 (Uint::BITS is a u32) *)
+From CB Require Import Src.GenDiv Src.GenMul Src.GenInt Src.GenDivLimb Src.GenBits Src.GenDivCt Src.GenIntDiv Src.GenIntCmp Src.GenIntCmpP.
+Theorem C06_src_int_invert_msb : forall n a, length a = n -> isz n -> g_int_invert_msb n a = int_invert_msb a.
+Proof. exact g_int_invert_msb_eq. Qed.
+Print Assumptions C06_src_int_invert_msb.
+Theorem C06_src_int_cmp_model : forall n a b, length a = n -> length b = n -> isz n -> wf a -> wf b ->
+  g_int_lt n a b = int_lt a b /\ g_int_gt n a b = int_gt a b /\ g_int_cmp n a b = int_cmp a b /\ g_int_eq n a b = uint_eq a b.
+Proof.
+  intros. repeat split; [apply g_int_lt_eq | apply g_int_gt_eq | apply g_int_cmp_eq | apply g_int_eq_eq]; assumption.
+Qed.
+Print Assumptions C06_src_int_cmp_model.
+Theorem C06_src_int_order : forall n a b, length a = n -> length b = n -> isz n -> wf a -> wf b ->
+  g_int_eq n a b = choice_of_bool (seval a =? seval b) /\
+  g_int_lt n a b = choice_of_bool (seval a <? seval b) /\
+  g_int_gt n a b = choice_of_bool (seval b <? seval a) /\
+  g_int_cmp n a b = ordz (seval a) (seval b).
+Proof. exact g_int_order_spec. Qed.
+Print Assumptions C06_src_int_order.
+
+Example C06_src_int_cmp_runs :
+  g_int_cmp 2 [5; 2 ^ 64 - 1] [4; 0] = -1 /\ g_int_cmp 2 [5; 0] [4; 2 ^ 63] = 1 /\ g_int_cmp 2 [7; 2 ^ 63] [7; 2 ^ 63] = 0 /\
+  g_int_lt 2 [0; 2 ^ 63] [2 ^ 64 - 1; 2 ^ 63 - 1] = 2 ^ 64 - 1 /\ g_int_gt 2 [1; 0] [2 ^ 64 - 1; 2 ^ 64 - 1] = 2 ^ 64 - 1 /\
+  g_int_eq 2 [1; 2] [1; 2] = 2 ^ 64 - 1.
+Proof. vm_compute. repeat split. Qed.
